@@ -149,6 +149,8 @@ macro_rules! impl_scalar_quad { ($q:ident, $t:ty, $k:expr, $name:expr) => {
 }}
 impl_scalar_quad!(GaussInt, i64, "G", "i64");
 impl_scalar_quad!(GaussInt, BigInt, "G", "BigInt");
+impl_scalar_quad!(GaussInt, i128, "G", "i128");
+impl_scalar_quad!(EisenInt, i128, "E", "i128");
 impl_scalar_quad!(EisenInt, i64, "E", "i64");
 impl_scalar_quad!(EisenInt, BigInt, "E", "BigInt");
 
